@@ -7,7 +7,7 @@ ROOT = os.path.dirname(os.path.dirname(os.path.abspath(__file__)))
 EXTRA = {'C19-r4m1': ['C08'], 'C07-r4m1': ['C11'], 'C05-r4m1': ['C17'], 'C06-r3m1': ['C05'], 'C04-r3m1': ['C17'], 'C09-m2': ['C19'], 'C01-m2': ['C06'], 'C04-m1': ['C17'], 'C06-m2': ['C11']}
 FIXREV = {'rev_b76484b': ['C08'], 'rev_e583a4c': ['C10'], 'rev_f77b91d': ['C10'], 'rev_ad4ff85': ['C10'],
           'rev_9ce0a04': ['C13'], 'rev_1affcd2': ['C13'], 'rev_09dadb9': ['C13'], 'rev_1dd29be': ['C05'],
-          'rev_43d8e78': ['C17'], 'rev_d85a310': ['C16'], 'rev_0f277e1': ['C16'], 'rev_05231ac': ['C20'], 'rev_8b244e6': ['C15'], 'rev_6dbf8c7': ['C01'], 'rev_adfd3df': ['C13'], 'rev_38d4983': ['C05'], 'rev_c685d9f': ['C10'], 'rev_ac87e57': ['C13'], 'rev_bb876fb': ['C10']}
+          'rev_43d8e78': ['C17'], 'rev_d85a310': ['C16'], 'rev_0f277e1': ['C16'], 'rev_05231ac': ['C20'], 'rev_8b244e6': ['C15'], 'rev_6dbf8c7': ['C01'], 'rev_adfd3df': ['C13'], 'rev_38d4983': ['C05'], 'rev_c685d9f': ['C10'], 'rev_ac87e57': ['C13'], 'rev_bb876fb': ['C10'], 'rev_962c916': ['C15']}
 
 
 def sh(cmd):
